@@ -573,7 +573,9 @@ def monitors(h, out, default_group=1):
                 bad.append((None, 'op %d (%s): %d node ids drawn from the allocator, %d objects created (ids %s)' % (
                     i, o, len(nallocs), want_allocs, nallocs)))
         if o == 'synth' and op.get('ctor') != 'grain':
-            if st['exc'] is not None:
+            if st['exc'] == 'BusException':
+                pass            # the caller's as_map() of a freed bus raised: the constructor was never called, no object
+            elif st['exc'] is not None:
                 node_ids.append(None)
             elif op.get('ctor') == 'replace' and op['same_id']:
                 node_ids.append(node_ids[op['target']['i']])
